@@ -82,6 +82,32 @@ fn run_items(items: Vec<DItem>) -> Result<(), String> {
         }
         prev = (it.root.clone(), it.moves.clone());
         let it = &it;
+        if let Some(w) = &it.walks {
+            // many shallow searches of different positions on one table (birthday stress on the table's keying)
+            let Some(mut base) = crate::gui::root_pos(&it.root) else { continue };
+            if !it.moves.iter().all(|m| base.play(m)) {
+                continue;
+            }
+            let mut seed = w.seed;
+            for _ in 0..w.n {
+                let len = 1 + sched::splitmix(&mut seed) % w.max_len.max(1) as u64;
+                let mut p = base.clone();
+                let mut line = it.moves.clone();
+                for _ in 0..len {
+                    let l = p.legal_moves();
+                    if l.is_empty() {
+                        break;
+                    }
+                    let m = l[(sched::splitmix(&mut seed) % l.len() as u64) as usize].clone();
+                    p.play(&m);
+                    line.push(m);
+                }
+                if let Ok(g) = build_game(&it.root, &line) {
+                    one_search(k, &g, &mut table, it.depth, None, &line);
+                }
+            }
+            continue;
+        }
         let game = match build_game(&it.root, &it.moves) {
             Ok(g) => g,
             Err(e) => {
